@@ -131,3 +131,28 @@ Theorem C12_racing_subscribe_is_shut_down : forall p i c,
   treach p -> receiving (t_mode p) = false -> nth_error (t_subs p) i = Some c -> t_phase c = SClosed.
 Proof. exact racing_subscribe_is_shut_down. Qed.
 Print Assumptions C12_racing_subscribe_is_shut_down.
+
+(* "Once the root is done every goroutine started by the library exits": the
+   tail of controller.run / lister.run waits for every part it started; a part
+   inside a client call finishes when the call has returned (WaitTail.v) *)
+From KC Require Import WaitTail.
+
+Theorem C12_parent_done_means_parts_done : forall n s,
+  wreach n s -> w_parent s = QDone -> forall i p, nth_error (w_parts s) i = Some p -> p = PDone.
+Proof. exact parent_done_means_parts_done. Qed.
+Print Assumptions C12_parent_done_means_parts_done.
+
+(* what the harness observes at the instant Done() closes: no List / Watch call
+   made by a library goroutine is still out *)
+Theorem C12_no_client_call_out_at_done : forall n s,
+  wreach n s -> w_parent s = QDone -> ~ In PInCall (w_parts s) /\ ~ In PCancelled (w_parts s).
+Proof. exact no_client_call_out_at_done. Qed.
+Print Assumptions C12_no_client_call_out_at_done.
+
+(* once the shutdown is requested the parts' and the parent's own steps reach
+   done, provided cancelled client calls return (the proviso of C12 is the
+   action WCallBack) *)
+Theorem C12_tail_shutdown_completes : forall n s, wreach n s -> stopping (w_parent s) = true ->
+  exists l s', Forall (fun a => own a = true) l /\ wrun s l = Some s' /\ w_parent s' = QDone.
+Proof. exact shutdown_completes. Qed.
+Print Assumptions C12_tail_shutdown_completes.
